@@ -55,6 +55,9 @@ def _process_node(
 ) -> None:
     """Perform a DFS to find all implicit usages in subgraphs."""
     for attr in node.attributes.values():
+        if attr.is_ref():
+            # A reference attribute holds no graph to look into
+            continue
         if attr.type == ir.AttributeType.GRAPH:
             subgraph = attr.as_graph()
             graph_stack.append(subgraph)
